@@ -127,23 +127,40 @@ Example C02_rejects_examples :
 Proof. vm_compute. repeat split. Qed.
 
 (* --- precedence: not > and > or, parentheses and cds(...) group ---
-   Whatever _parse_conditions returns is the reading of the tokens it consumed (after alias splicing) by
-   the stratified grammar G_ors / G_item / G_andsR / G_un / G_core of Proofs.v:
+   The documented grammar, as the relations G_ors / G_item / G_andsR / G_un / G_core of Proofs.v (section E):
      ors  ::= item { OR item }        item ::= un | un AND un { AND un }   (an AndCondition)
-     un   ::= [NOT] core              core ::= ID | ( ors ) | cds( ors without cds/minimum ) | minimum... | minscore...
-   Soundness only (partial): that every grammatical token list is accepted, given enough fuel, is covered
-   by the correspondence run; the inner syntax of minimum(...) and minscore(...) is not part of G_core. *)
-Theorem C02_precedence_sound_partial : forall f allow g s cs s',
+     un   ::= [NOT] core              core ::= ID | ( ors ) | cds( ors' ) | minimum( INT , [ ID {, ID} ] ) | minscore( ID , INT )
+   cds/minimum only outside cds (ors' = ors with allow = false); the contents of cds() are more than one identifier.
+   Soundness: whatever _parse_conditions returns is the reading of the tokens it consumed (after alias splicing).
+   Completeness (C02_precedence_complete): every grammatical token list T whose reading has no repeated operand
+   (nrb: what Conditions.__init__ / MinimumCondition.__init__ check) is accepted and read as the grammar says, from
+   any state in front of T ++ R in which no token of T (and not the first of R) is an alias name, R does not go on
+   with AND/OR and is a legal end of the conditions, with fuel 2|T|+3. *)
+Theorem C02_precedence_sound : forall f allow g s cs s',
   parse_conditions f allow g s = Ok (cs, s') ->
   exists T, consumed s' = rev T ++ consumed s /\ G_ors allow T cs.
 Proof. exact precedence_sound. Qed.
-Print Assumptions C02_precedence_sound_partial.
+Print Assumptions C02_precedence_sound.
 
-Theorem C02_rule_conditions_grammar_partial : forall f known cats s r s',
+Theorem C02_precedence_complete : forall allow T cs, G_ors allow T cs -> forallb nrb cs = true ->
+  forall als g R cons f, nah als T = true -> nahd als R = true ->
+  hd_is c02_T_AND R = false -> hd_is c02_T_OR R = false ->
+  (forall cons', conditions_end g (st R cons' als) = Ok tt) -> (2 * List.length T + 3 <= f)%nat ->
+  parse_conditions f allow g (st (T ++ R) cons als) = Ok (cs, st R (rev T ++ cons) als).
+Proof. exact precedence_complete. Qed.
+Print Assumptions C02_precedence_complete.
+
+(* the same grammar with right-recursive lists (H_ors ... of section H), which is what the completeness proof
+   runs on; every G-sentence is an H-sentence with the same reading *)
+Theorem C02_grammar_presentations : forall allow T cs, G_ors allow T cs -> H_ors allow T cs.
+Proof. exact G_ors_H_ors. Qed.
+Print Assumptions C02_grammar_presentations.
+
+Theorem C02_rule_conditions_grammar : forall f known cats s r s',
   parse_rule f known cats s = Ok (r, s') ->
   exists cs T, r_cond r = CGroup false cs /\ G_ors true T cs.
 Proof. exact parse_rule_conditions. Qed.
-Print Assumptions C02_rule_conditions_grammar_partial.
+Print Assumptions C02_rule_conditions_grammar.
 
 (* non-vacuity and the three precedence levels on one text: a or not b and c and (d or e) *)
 Example C02_precedence_example :
@@ -158,6 +175,21 @@ Example C02_precedence_example :
   | _ => False
   end.
 Proof. vm_compute. reflexivity. Qed.
+
+(* non-vacuity of C02_precedence_complete: a grammatical token list with minimum, minscore, cds, groups and the
+   three operators (obtained from the soundness theorem), no repeated operand *)
+Example C02_precedence_complete_example : exists T cs,
+  G_ors true T cs /\ forallb nrb cs = true /\ List.length cs = 3%nat /\ List.length T = 40%nat.
+Proof.
+  destruct (tokenise (codes "a or not b and minimum(2,[a,b,c]) and (d or minscore(e, 5)) or cds(a and (b or not c))"))
+    as [[|t r]|] eqn:E; try (vm_compute in E; discriminate E).
+  destruct (parse_conditions 200 true false (mkP (Some (mk_token t)) (map mk_token r) [] [])) as [[cs s']|] eqn:P;
+    [|vm_compute in E; inversion E; subst; vm_compute in P; discriminate P].
+  destruct (precedence_sound _ _ _ _ _ _ P) as [T [HT HG]]. exists T, cs. split; [exact HG|].
+  vm_compute in E. inversion E; subst. vm_compute in P. inversion P; subst. cbn [consumed] in HT.
+  rewrite app_nil_r in HT. apply (f_equal (@rev token)) in HT. rewrite rev_involutive in HT. subst T.
+  vm_compute. repeat split.
+Qed.
 
 (* --- DEFINE aliases are textual substitution (one step of the token stream; partial) ---
    Moving on to an alias name is the same as moving on to the tokens of its definition, provided the
@@ -181,6 +213,49 @@ Example C02_alias_subst_example :
   alias_get (codes "x") al = Some (map (fun s => set_aliased (mk_token (codes s))) ["a"; "or"; "b"]%string)
   /\ alias_head al (set_aliased (mk_token (codes "a"))) = false.
 Proof. vm_compute. split; reflexivity. Qed.
+
+(* --- DEFINE aliases are textual substitution, whole token stream of the conditions (C02_alias_subst) ---
+   Xp als L L' : L' is the stream L with every alias use replaced by its definition, recursively, the way _consume
+   does it - defined only when no definition that gets spliced starts with an alias name (the proviso of
+   alias_first_token: C02_alias_subst_proviso_needed shows a stream without any expansion).  Parsing the conditions
+   from L and from L' gives the same conditions, current token and consumed tokens, or the same kind of error;
+   L' itself mentions no alias (C02_alias_subst_expanded_alias_free), so the second run is alias-free parsing. *)
+Theorem C02_alias_subst : forall f allow g c L L' cons als,
+  Xp als L L' ->
+  (forall cs s1, parse_conditions f allow g (mkP (Some c) L cons als) = Ok (cs, s1) ->
+     exists s1', parse_conditions f allow g (mkP (Some c) L' cons als) = Ok (cs, s1') /\
+                 cur s1 = cur s1' /\ consumed s1 = consumed s1' /\ aliases s1 = aliases s1' /\
+                 Xp (aliases s1) (rest s1) (rest s1')) /\
+  (forall k, parse_conditions f allow g (mkP (Some c) L cons als) = Err k ->
+     parse_conditions f allow g (mkP (Some c) L' cons als) = Err k).
+Proof. exact alias_subst_whole_plain. Qed.
+Print Assumptions C02_alias_subst.
+
+Theorem C02_alias_subst_converse : forall f allow g c L L' cons als,
+  Xp als L L' ->
+  (forall cs s1', parse_conditions f allow g (mkP (Some c) L' cons als) = Ok (cs, s1') ->
+     exists s1, parse_conditions f allow g (mkP (Some c) L cons als) = Ok (cs, s1) /\ sim s1 s1') /\
+  (forall k, parse_conditions f allow g (mkP (Some c) L' cons als) = Err k ->
+     parse_conditions f allow g (mkP (Some c) L cons als) = Err k).
+Proof. exact alias_subst_whole_conv. Qed.
+Print Assumptions C02_alias_subst_converse.
+
+Theorem C02_alias_subst_expanded_alias_free : forall als L L', Xp als L L' -> nah als L' = true.
+Proof. exact Xp_nah. Qed.
+Print Assumptions C02_alias_subst_expanded_alias_free.
+
+Theorem C02_alias_subst_proviso_needed : forall L', ~ Xp bad_als [mk_token (codes "y")] L'.
+Proof. exact ex_proviso_needed. Qed.
+Print Assumptions C02_alias_subst_proviso_needed.
+
+(* non-vacuity: x := a or b, y := c and x (alias inside an alias, not in first position); "d or y or e" is read
+   like "d or c and a or b or e" *)
+Example C02_alias_subst_whole_example :
+  Xp ex_als ex_L ex_L' /\
+  parse_conditions 20 true false (mkP (Some ex_cur) ex_L [] ex_als)
+  = parse_conditions 20 true false (mkP (Some ex_cur) ex_L' [] ex_als) /\
+  exists s1, parse_conditions 20 true false (mkP (Some ex_cur) ex_L [] ex_als) = Ok (ex_conds, s1).
+Proof. split; [exact ex_Xp|]. split; [exact ex_same_result|]. eexists. vm_compute. reflexivity. Qed.
 
 (* --- kilobases and multipliers ---
    cutoff and neighbourhood of every parsed rule are floor(1000 * n * multiplier) for the INT tokens n of
@@ -244,3 +319,134 @@ Proof.
   vm_compute. discriminate.
 Qed.
 Print Assumptions C02_roundtrip_distances_refuted.
+
+(* --- round trip of the condition text (C02_roundtrip_cond) ---
+   For every non-empty list cs of condition trees of the shapes the parser builds (rt_ok: names are IDENTIFIER
+   tokens, numbers not negative, groups non-empty, AndConditions with >= 2 operands that are not AndConditions,
+   cds/minimum only outside cds, no repeated operand, and the guard cds_ok of finding cds_single_wrapped):
+   the text  str(c1) or str(c2) or ...  tokenises to the token texts toks, and from every parser state in front of
+   these tokens that knows no alias used in them, with fuel 2|toks|+3, _parse_conditions returns the trees
+   norm c1, norm c2, ... - norm removes the one-member groups the printer does not print (negating the member
+   once more when the group is negated) and sorts the options of minimum().  norm c prints the same text as c
+   (the regenerated text is a fixed point) and has the same meaning under every interpretation of the leaves
+   (den: groups = OR, AndCondition = AND, not = negation, cds(...) = some gene satisfies the inside on its own).
+   No guard on doubled negations any more (repair dceca0db). *)
+Theorem C02_roundtrip_cond : forall cs, cs <> [] -> forallb rt_ok cs = true ->
+  let toks := ljoin (codes "or") (map lt cs) in
+  tokenise (join s_or_sep (map show cs)) = Ok toks /\
+  (forall als cons f, nah als (map mk_token toks) = true -> (2 * List.length toks + 3 <= f)%nat ->
+     parse_conditions f true false (st (map mk_token toks) cons als)
+     = Ok (map norm cs, st [] (rev (map mk_token toks) ++ cons) als)) /\
+  map show (map norm cs) = map show cs /\
+  (forall g genes, map (den g genes) (map norm cs) = map (den g genes) cs).
+Proof. exact roundtrip_conds. Qed.
+Print Assumptions C02_roundtrip_cond.
+
+(* the text that reconstruct_rule_text writes after CONDITIONS is that joined text (two or more members, or one
+   AndCondition; a single other member is printed as itself) *)
+Theorem C02_roundtrip_conditions_text : forall cs,
+  match cs with [] => false | [c] => is_and c | _ => true end = true ->
+  strip_parens (show (CGroup false cs)) = join s_or_sep (map show cs).
+Proof. exact conditions_text. Qed.
+Print Assumptions C02_roundtrip_conditions_text.
+
+(* the hypotheses of the round trip other than cds_ok hold for everything _parse_conditions returns, when the
+   consumed tokens carry the type of their text (as the tokeniser makes them) *)
+Theorem C02_parsed_conditions_shape : forall f allow g s cs s', parse_conditions f allow g s = Ok (cs, s') ->
+  Forall tok_wf (consumed s') ->
+  forallb (fun c => lexable c && shape allow c && nrb c) cs = true /\ cs <> [].
+Proof. exact parsed_shape. Qed.
+Print Assumptions C02_parsed_conditions_shape.
+
+(* without the guard cds_ok the round trip is false (finding cds_single_wrapped): cds((a)) is accepted, printed as
+   cds(a), and that is rejected *)
+Theorem C02_roundtrip_cds_single_refuted : exists text sigs cats r,
+  parse_files [text] 0 sigs cats (mkM 1 1 1 1) [] [] = inl ([r], []) /\
+  lexable (r_cond r) && shape true (r_cond r) && nrb (r_cond r) = true /\ cds_ok (r_cond r) = false /\
+  parse_files [reconstruct r] 0 sigs cats (mkM 1 1 1 1) [] [] = inr (E_RuleSyntax, 0).
+Proof.
+  exists (codes "RULE r1 CATEGORY cat CUTOFF 1 NEIGHBOURHOOD 1 CONDITIONS b and cds((a))"),
+         (map codes ["a"; "b"]%string), [codes "cat"].
+  eexists. split; [vm_compute; reflexivity|]. split; [vm_compute; reflexivity|]. split; vm_compute; reflexivity.
+Qed.
+Print Assumptions C02_roundtrip_cds_single_refuted.
+
+(* non-vacuity: trees as the parser returns them for a text with a doubled negation in one-member groups, a
+   negated one-member group, minimum with unsorted options, cds and minscore satisfy rt_ok; norm changes them;
+   the text is unchanged *)
+Example C02_roundtrip_cond_example :
+  match tokenise (codes "a and not ((not b)) or not (c) and minimum(2,[c,a]) or cds(a and (b or not c)) or ((minscore(d, 07)))") with
+  | Ok (t :: r) =>
+    match parse_conditions 200 true false (mkP (Some (mk_token t)) (map mk_token r) [] []) with
+    | Ok (cs, _) => forallb rt_ok cs = true /\ map norm cs <> cs /\ List.length cs = 4%nat /\
+                    join s_or_sep (map show cs)
+                    = codes "a and not (not b) or not c and minimum(2, [a, c]) or cds(a and (b or not c)) or minscore(d, 7)"
+    | Err _ => False
+    end
+  | _ => False
+  end.
+Proof. vm_compute. repeat split. discriminate. Qed.
+
+(* --- further ill-formed classes ---
+   duplicate alias name / alias named like a signature, rule or category / duplicate rule name: the step of
+   Parser.__init__ that has just read such a DEFINE or RULE block raises ValueError *)
+Theorem C02_rejects_duplicate_alias : forall n sigs cats m rules s t name toks s1,
+  cur s = Some t -> ttype t = c02_T_DEFINE -> parse_alias (fuel_for s) s = Ok (name, toks, s1) ->
+  isSomeB (alias_get name (aliases s)) = true ->
+  main_loop (S n) sigs cats m rules s = Err E_Value.
+Proof. exact rejects_duplicate_alias. Qed.
+Print Assumptions C02_rejects_duplicate_alias.
+
+Theorem C02_rejects_alias_name_clash : forall n sigs cats m rules s t name toks s1,
+  cur s = Some t -> ttype t = c02_T_DEFINE -> parse_alias (fuel_for s) s = Ok (name, toks, s1) ->
+  (In name sigs \/ In name cats \/ In name (map r_name rules)) ->
+  main_loop (S n) sigs cats m rules s = Err E_Value.
+Proof. exact rejects_alias_name_clash. Qed.
+Print Assumptions C02_rejects_alias_name_clash.
+
+Theorem C02_rejects_duplicate_rule : forall n sigs cats m rules s t r s1,
+  cur s = Some t -> ttype t = c02_T_RULE -> parse_rule (fuel_for s) rules cats s = Ok (r, s1) ->
+  isSomeB (known_get (r_name r) rules) = true ->
+  main_loop (S n) sigs cats m rules s = Err E_Value.
+Proof. exact rejects_duplicate_rule. Qed.
+Print Assumptions C02_rejects_duplicate_rule.
+
+(* minimum() with a count below 1 or a repeated option: ValueError at the constructor *)
+Theorem C02_rejects_minimum_ctor : forall n k opts, (k < 1 \/ has_dup opts = true) -> mk_min n k opts = Err E_Value.
+Proof. exact mk_min_rejects. Qed.
+Print Assumptions C02_rejects_minimum_ctor.
+
+(* unbalanced group: the tokens consumed by a successful _parse_conditions are balanced in ( and ) *)
+Theorem C02_rejects_unbalanced_group : forall f allow g s cs s', parse_conditions f allow g s = Ok (cs, s') ->
+  exists T, consumed s' = rev T ++ consumed s /\ balanced T.
+Proof. exact consumed_balanced. Qed.
+Print Assumptions C02_rejects_unbalanced_group.
+
+(* missing section: a RULE block is only accepted if it consumed RULE id CATEGORY id ... CUTOFF int NEIGHBOURHOOD int
+   CONDITIONS ..., in this order (A: description / examples / related / superiors, B: conditions and extenders) *)
+Theorem C02_rejects_missing_section : forall f known cats s r s', parse_rule f known cats s = Ok (r, s') ->
+  exists tR tN tCat tC A tCut tCi tNe tNi tCo B,
+    consumed s' = rev ([tR; tN; tCat; tC] ++ A ++ [tCut; tCi; tNe; tNi; tCo] ++ B) ++ consumed s /\
+    ttype tR = c02_T_RULE /\ ttype tN = c02_T_IDENTIFIER /\ ttype tCat = c02_T_CATEGORY /\
+    ttype tC = c02_T_IDENTIFIER /\ ttype tCut = c02_T_CUTOFF /\ ttype tCi = c02_T_INT /\
+    ttype tNe = c02_T_NEIGHBOURHOOD /\ ttype tNi = c02_T_INT /\ ttype tCo = c02_T_CONDITIONS /\
+    r_name r = ttext tN /\ r_cat r = ttext tC.
+Proof. exact rule_sections. Qed.
+Print Assumptions C02_rejects_missing_section.
+
+(* unknown profile: every profile name in the CONDITIONS of a rule that Parser.__init__ newly accepts is one of
+   the signature names (names of single conditions, of minscore, options of minimum, at any depth) *)
+Theorem C02_rejects_unknown_profile : forall text sigs cats m rules als rules' als',
+  parse_text text sigs cats m rules als = Ok (rules', als') ->
+  exists new, rules' = rules ++ new /\
+    Forall (fun r => forall a, In a (cond_names (r_cond r)) -> In a sigs) new.
+Proof. exact unknown_profile_rejected. Qed.
+Print Assumptions C02_rejects_unknown_profile.
+
+(* the same for EXTENDERS is false (finding extenders_unknown_profile): find_condition_identifiers stops
+   collecting at the EXTENDERS keyword *)
+Theorem C02_rejects_unknown_profile_extenders_refuted : exists text sigs cats r,
+  parse_text text sigs cats (mkM 1 1 1 1) [] [] = Ok ([r], []) /\
+  exists e a, r_ext r = Some e /\ In a (cond_names e) /\ ~ In a sigs.
+Proof. exact unknown_profile_extenders_refuted. Qed.
+Print Assumptions C02_rejects_unknown_profile_extenders_refuted.
